@@ -143,6 +143,8 @@ func (c *caComp) Run(args []string) string {
 		return caPar(args)
 	case "rr":
 		return caRR(args)
+	case "ra":
+		return caRA(args)
 	case "own":
 		return caOwn(args)
 	case "new":
